@@ -16,8 +16,12 @@ RULE = ('a genome of 1..4 contigs (with and without names containing "_", keep-a
         'MultiStream attribute / zip second slot / get_contingency_table+forbes+jaccard, left_join over groupby. '
         'non-trivial = at least two groups, or a group order that must raise')
 EXHAUSTIVE = {'quick': False, 'thorough': False}
-TIE = ('correspondence: groupby fast path + join_groupbys, _included_groups, the iter_chromosomes walk, SynchedStream, '
-       'left_join and the consumers (pull-to-exhaustion / pull-n) are evaluated inside Coq on the same chunk stream')
+TIE = ('translator+correspondence: translate/gen_c12.py regenerates the decision rules (ignored/included, walked order, '
+       '_included_groups skip/raise/yield, iter_chromosomes sort-order and left-over tests and their position before the '
+       'yield, SynchedStream guards and skipping loop, left_join tests, group boundary = inequality of whole adjacent keys, '
+       'fast path, join key, get_data argument order) into Gen/C12.v; Bridge/C12.v proves them equal to the named rules of '
+       'Model/C12.v and that the model\'s state machines step by those rules; the generators, consumers and the chunked '
+       'groupby are additionally evaluated inside Coq on every case (correspondence)')
 ASSUMPTIONS = ['entries of one contig are contiguous in the data (the property\'s precondition; checked per case in Coq: gen_ok)',
                'no empty chunk in the stream (groupby raises ValueError on one; no reader yields one)',
                'all contigs have the same size and every entry lies inside it, so the per-contig operation (pileup, '
@@ -30,6 +34,12 @@ PARTIAL = ['C12_genome_partial: with chromosome_order() as it is, exactness need
 PER_FILE = 40
 L = 40                      # common contig size
 UNKNOWN = 'chrU'
+LONG = [(['scaffold1', 'scaffold2', 'scaffold3'], 'scaffoldU'),                                  # 8-byte prefix, last byte differs
+        (['scaffoldX1', 'scaffoldX2', 'scaffoldX3'], 'scaffoldXU'),                              # 9-byte prefix
+        (['chrUnKI270302', 'chrUnKI270304', 'chrUnKI270312'], 'chrUnKI270399'),                   # 11/12-byte prefixes
+        (['contigAAAABBBBCC1', 'contigAAAABBBBCC2', 'contigAAAABBBBCC3'], 'contigAAAABBBBCCU'),   # 16-byte prefix
+        (['scaffold', 'scaffold1', 'scaffold10'], 'scaffold100')]                                 # strict prefixes (8, 9, 10 bytes)
+LONG_US = ['chrUn_KI270302', 'chrUn_KI270304']
 EXTRA = 'chrI'
 
 
@@ -149,6 +159,39 @@ def generate(tier, seed):
                 add(0, genome, False, [EXTRA], names[:1] + [EXTRA] + names[1:], [rng.randrange(3)])
                 add(1, genome, False, [], names, [rng.randrange(3)])
                 add(2, genome, False, [], names, [rng.randrange(3)])
+    # long contig names sharing 8-, 9-, 12- and 16-byte prefixes, one name a strict prefix of another, names differing
+    # only in the last byte; the unknown name shares the prefix too.  Group boundaries are decided by comparing whole
+    # names: a comparison of a fixed-width prefix (first machine word) would merge adjacent contigs inside one chunk.
+    # Chunk kind 0 (everything in one chunk) is always present so both contigs of every pair share a chunk.
+    for genome, unknown in LONG:
+        pool = genome + [unknown]
+        for names in _sequences(pool):
+            if not names or (quick and (len(names) > 3 or (len(names) == 3 and rng.random() > 0.15))):
+                continue
+            counts = [rng.choice([1, 2]) for _ in names]
+            m = sum(counts)
+            if quick:
+                chs = [[m], _chunking(rng, m, 2)]
+            elif m <= 4:
+                chs = compositions(m)
+            else:
+                chs = [[m], [1] * m, _chunking(rng, m, 2)]
+            seen_ch = []
+            for ch in chs:
+                if ch in seen_ch:
+                    continue
+                seen_ch.append(ch)
+                cases.append(_mk(0, genome, False, [], names, counts, ch))
+                if not quick or ch == [m]:
+                    cases.append(_mk(1, genome, False, [], names, counts, ch))
+                if ch == [m] and (not quick or len(names) <= 2):
+                    cases.append(_mk(2, genome, False, [], names, counts, ch))
+    for names in _sequences(LONG_US + ['chrUn_KI270399']):
+        if names:
+            counts = [rng.choice([1, 2]) for _ in names]
+            for ch in ([sum(counts)], _chunking(rng, sum(counts), 2)):
+                cases.append(_mk(0, LONG_US, True, [], names, counts, ch))     # keep-all: '_' names are contigs
+                cases.append(_mk(0, LONG_US + ['chr1'], False, [], names, counts, ch))   # default: all of them ignored
     # every chunking of selected data sets (good order, swapped, unknown in the middle / at the end, ignored)
     g3 = ['chr1', 'chr2', 'chr3']
     sel = [(g3, ['chr1', 'chr2', 'chr3'], [2, 2, 1]), (g3, ['chr1', 'chr3'], [3, 2]), (g3, ['chr2', 'chr1'], [2, 2]),
@@ -470,7 +513,8 @@ def distribution(cases, obs):
         d['keepall'] += c['keepall']
         G, I = _ctx(c)
         d['underscore_included'] += any('_' in n for n in G)
-        d['with_unknown'] += any(n == UNKNOWN for n, _ in c['groups'])
+        d['with_unknown'] += any(n not in c['genome'] and n not in c['extra'] for n, _ in c['groups'])
+        d['long_names'] = d.get('long_names', 0) + any(len(n) > 8 for n in c['genome'])
         d['with_ignored'] += any(n in I for n, _ in c['groups'])
         if isinstance(o, dict):
             for key, l in o.items():
